@@ -78,7 +78,7 @@ def main(tier, seed):
 
     def one(i):
         # every third program also has holder opaques keeping a std::function beyond the call that received it
-        return api.run_cpp_program(seed, i, "c02", ncalls=40, profile=(dict(held_callbacks=True, cb_orefs=True) if i % 3 == 1 else dict(utf8_bias=True, callbacks=False, owned_slices=False) if i % 6 == 2 else None))
+        return api.run_cpp_program(seed, i, "c02", ncalls=40, profile=(dict(held_callbacks=True, cb_orefs=True) if i % 3 == 1 else dict(utf8_bias=True, callbacks=False, owned_slices=False) if i % 6 == 2 else dict(opt_strs_bias=True) if i % 6 == 5 else None))
     results = pmap(one, range(nprog))
     # feature quotas are met by construction: while a required production has not been exercised, run further programs (new indices)
     for round_ in range(4):
